@@ -47,13 +47,10 @@ fn compute_new_state(par_result: ParResult, subgraph_type: SubgraphType, slider:
         .ok_or_else(|| StateFSMError::ParPosOverflow(par_result, slider.position(), MergeCtxType::Previous))?;
 
     assert!(std::mem::size_of_val(&par_subgraph_len) <= std::mem::size_of::<usize>());
-    let new_subtrace_len = match subgraph_type {
-        SubgraphType::Left => par_subgraph_len,
-        SubgraphType::Right => slider
-            .subtrace_len()
-            .checked_sub(par_subgraph_len)
-            .ok_or_else(|| StateFSMError::ParLenUnderflow(par_result, slider.subtrace_len(), MergeCtxType::Current))?,
-    };
+    let new_subtrace_len = slider
+        .subtrace_len()
+        .checked_sub(par_subgraph_len)
+        .ok_or_else(|| StateFSMError::ParLenUnderflow(par_result, slider.subtrace_len(), MergeCtxType::Current))?;
 
     let new_state = CtxState::new(new_position, new_subtrace_len);
     Ok(new_state)
